@@ -420,10 +420,13 @@ def run_sharded_final_reply_death(ctx, runner, case):
     time.sleep(case['after_ms'] / 1000.0)     # real milliseconds (this module's clock is not dilated)
     if case['death'] == 'exit_notice':
       # graceful exit: the alive=False notice reaches the driver, then the process is gone
+      # (the address is NOT put into sim.refusing: the library's clients are created
+      # with wait_for_ready, a call dispatched to the worker in the instant before the
+      # notice arrived waits for its deadline / for the liveness check like on the real
+      # transport; a 'connection refused' status would be an invention of the stand-in
+      # that the library rightly treats as a non-retriable error)
       courier_utils.worker_registry().unregister(victim.address)
       sim.kill(victim_raw)
-      sim.refusing.add(victim_raw)
-      sim.refusing.add(victim.address)
     else:
       sim.kill(victim_raw)
 
@@ -1007,6 +1010,9 @@ def judge(ctx, case, res):
     return
   exc = res['exc']
   exc_text = f'{type(exc).__name__}: {exc}' if exc is not None else None
+  if exc is not None and exc.__cause__ is not None:
+    # e.g. 'Failed at k/n task.' raised from the exception of the failed task
+    exc_text += f' <- {type(exc.__cause__).__name__}: {str(exc.__cause__)[:160]}'
   STALE = 'healthy-idle-worker-heartbeat-transiently-stale'
   if exc is not None and res['last_healthy'] and (
       (isinstance(exc, TimeoutError) and 'All workers timeout' in str(exc))
